@@ -77,7 +77,9 @@ def agg_case(draw, tier):
             "nan": nanmask, "op": draw(st.integers(0, 3)),
             "maxnan": draw(st.integers(0, max(runs) + 1)),
             "drop_at": draw(st.integers(0, n - 1)),
-            "regime": regime}
+            "regime": regime,
+            "icont": draw(st.sampled_from(["int64", "int64", "int32", "list",
+                                           "series", "strided"]))}
 
 
 def build(case):
@@ -100,7 +102,22 @@ def agg_oracle(case):
     labels = [f"op:{op}", f"regime:{case['regime']}"]
     if idx.min() < I32MIN or idx.max() > 2**31 - 1:
         raise Skip()
-    out = dutils.aggregate(idx, x.copy(), op, maxnan)
+    # the index passed as int64 / int32 array, list, pandas object or view
+    ic = case.get("icont", "int64")
+    if ic == "int32":
+        idx_in = idx.astype(np.int32)
+    elif ic == "list":
+        idx_in = [int(i) for i in idx]
+    elif ic == "series":
+        idx_in = pd.Series(idx)
+    elif ic == "strided":
+        big = np.zeros(2 * len(idx), dtype=np.int64)
+        big[::2] = idx
+        idx_in = big[::2]
+    else:
+        idx_in = idx
+    labels.append(f"index-container:{ic}")
+    out = dutils.aggregate(idx_in, x.copy(), op, maxnan)
     groups = np.unique(idx)
     if len(out) != len(groups):
         raise Violation(f"aggregate returns {len(out)} values for "
@@ -141,7 +158,7 @@ def agg_oracle(case):
                             f"inputs to {tot!r}")
 
     # ---- flat homogenisation
-    flat = dutils.flathomogen(idx, x.copy(), maxnan)
+    flat = dutils.flathomogen(idx_in, x.copy(), maxnan)
     if flat.shape != x.shape:
         raise Violation(f"flathomogen shape {flat.shape}")
     for k, gidx in enumerate(groups):
